@@ -52,7 +52,10 @@ class Linear(Transform):
         else:
             return self.forward_no_cache(inputs)
 
+    @torch.no_grad()
     def _check_forward_cache(self):
+        # Cached values are constants: keeping the graph that produced them would make
+        # every back-propagation after the first one fail.
         if self.cache.weight is None and self.cache.logabsdet is None:
             self.cache.weight, self.cache.logabsdet = self.weight_and_logabsdet()
 
@@ -71,6 +74,7 @@ class Linear(Transform):
         else:
             return self.inverse_no_cache(inputs)
 
+    @torch.no_grad()
     def _check_inverse_cache(self):
         if self.cache.inverse is None and self.cache.logabsdet is None:
             (
